@@ -30,7 +30,7 @@ GOENV = {
 # race build, address-space limit (GiB, 0 = none)
 DEFAULT = dict(shards=(8, 16), limit=(240, 2400), race=False, as_gib=16, native_fuzz=False)
 PROPS = {
-    "C01": dict(pkg="c01"), "C02": dict(pkg="c02"), "C03": dict(pkg="c03"), "C04": dict(pkg="c04"),
+    "C01": dict(pkg="c01", native_fuzz=("FuzzParse", 120)), "C02": dict(pkg="c02"), "C03": dict(pkg="c03"), "C04": dict(pkg="c04"),
     "C05": dict(pkg="c05"), "C06": dict(pkg="c06"), "C07": dict(pkg="c07"), "C08": dict(pkg="c08"),
     "C09": dict(pkg="c09", shards=(4, 16)), "C10": dict(pkg="c10"),
     "C11": dict(pkg="c11", race=True, as_gib=0, shards=(4, 8)),
@@ -224,6 +224,53 @@ def write_evidence(prop, tier, seed, tot, wall, nviol, extra=None):
         f.write("\n")
 
 
+def run_native_fuzz(prop, binpath, wd):
+    """Thorough tier only: bounded coverage-guided campaigns (seeded corpus, then empty corpus).
+    Go's native fuzzer cannot be pinned to a seed; the saved failing input is the reproducible unit."""
+    c = cfg(prop)
+    target, secs = c["native_fuzz"]
+    viols, execs = [], 0
+    cache = os.path.join(ROOT, ".cache", "fuzz", prop)
+    for label, extra in (("seeded-corpus", {}), ("empty-corpus", {"VERIF_FUZZ_EMPTY_CORPUS": "1"})):
+        cdir = os.path.join(cache, label)
+        os.makedirs(cdir, exist_ok=True)
+        pkgdir = os.path.join(ROOT, "checks", c["pkg"])
+        shutil.rmtree(os.path.join(pkgdir, "testdata", "fuzz"), ignore_errors=True)
+        env = goenv()
+        env.update(extra)
+        before = set(os.listdir(os.path.join(ROOT, "replays", prop))) if os.path.isdir(os.path.join(ROOT, "replays", prop)) else set()
+        log = os.path.join(wd, "fuzz.%s.txt" % label)
+        with open(log, "w") as lf:
+            r = subprocess.run([binpath, "-test.run=^$", "-test.fuzz=^%s$" % target, "-test.fuzztime=%ds" % secs,
+                                "-test.fuzzcachedir=" + cdir, "-test.timeout=0"], cwd=pkgdir, env=env, stdout=lf, stderr=subprocess.STDOUT,
+                               preexec_fn=limiter(0))
+        txt = open(log).read()
+        import re
+        m = re.findall(r"execs: (\d+)", txt)
+        if m:
+            execs += int(m[-1])
+        after = set(os.listdir(os.path.join(ROOT, "replays", prop))) if os.path.isdir(os.path.join(ROOT, "replays", prop)) else set()
+        if r.returncode != 0:
+            new = sorted(after - before)
+            if new:
+                for fn in new[:5]:
+                    pth = os.path.join(ROOT, "replays", prop, fn)
+                    try:
+                        v = json.load(open(pth))
+                    except Exception:
+                        v = {"check": "fuzz", "message": "native fuzzing found a failing input"}
+                    v["replay"] = pth
+                    viols.append(v)
+            else:
+                keep = os.path.join(ROOT, "replays", prop)
+                os.makedirs(keep, exist_ok=True)
+                dst = os.path.join(keep, "fuzz-%s.log" % label)
+                shutil.copyfile(log, dst)
+                viols.append({"property": prop, "check": "fuzz", "message": "native fuzz campaign failed without a recorded case: " + txt[-400:], "replay": dst})
+        shutil.rmtree(os.path.join(pkgdir, "testdata", "fuzz"), ignore_errors=True)
+    return viols, execs
+
+
 def run_property(prop, tier, seed):
     t0 = time.time()
     binpath = build(prop)
@@ -231,6 +278,19 @@ def run_property(prop, tier, seed):
         return 2
     wd, n, results = run_shards(prop, tier, seed, binpath)
     tot = merge(wd, n)
+    if tier == "thorough" and cfg(prop).get("native_fuzz"):
+        # coverage instrumentation needs a binary built with -fuzz
+        c = cfg(prop)
+        fbin = os.path.join(BIN, c["pkg"] + ".fuzz.test")
+        fb = subprocess.run(["go", "test", "-c", "-vet=off", "-fuzz=^%s$" % c["native_fuzz"][0], "-o", fbin, "./checks/" + c["pkg"] + "/"],
+                            cwd=ROOT, env=goenv(), stdout=subprocess.PIPE, stderr=subprocess.STDOUT, text=True)
+        if fb.returncode != 0 or not os.path.exists(fbin):
+            print("[vdrive] fuzz build failed:\n%s" % fb.stdout)
+            return 2
+        fv, fexecs = run_native_fuzz(prop, fbin, wd)
+        tot["violations"].extend(fv)
+        tot["evaluations"] += fexecs
+        tot["notes"].append("native go fuzzing (coverage-guided, not seed-reproducible): %d executions in two bounded campaigns (seeded corpus, empty corpus)" % fexecs)
     wall = time.time() - t0
     rc = 0
     viols = list(tot["violations"])
